@@ -43,8 +43,14 @@ func mstoreStr(a *asm.P, off uint64, s string) {
 // c16Recorder builds a transaction that registers nVars top-level variables and nIdx members under the first one
 // (a mapping), journals values for them, and makes nCalls nested calls that journal again (several change indices).
 func c16Recorder(f world.Fork, nVars, nIdx, nCalls int) c16Tx {
+	return c16RecorderP(f, nVars, nIdx, nCalls, false)
+}
+
+// c16RecorderP: with packed set, the members share storage slots (four 8-byte fields per slot at offsets 0/8/16/24),
+// so that neither the slot nor the offset alone identifies a child.
+func c16RecorderP(f world.Fork, nVars, nIdx, nCalls int, packed bool) c16Tx {
 	a := asm.New()
-	tx := c16Tx{Name: fmt.Sprintf("recorder(vars=%d,idx=%d,calls=%d)", nVars, nIdx, nCalls)}
+	tx := c16Tx{Name: fmt.Sprintf("recorder(vars=%d,idx=%d,calls=%d,packed=%v)", nVars, nIdx, nCalls, packed)}
 	A, B := gen.TypeA, gen.TypeB
 	// top-level variables v0..: v0 is a mapping at slot 0x40 (reference type B), others value variables at slots 0x50+i
 	for i := 0; i < nVars; i++ {
@@ -63,12 +69,18 @@ func c16Recorder(f world.Fork, nVars, nIdx, nCalls int) c16Tx {
 	// members of the mapping: value-typed index keys k = 1..nIdx at slots 0x100+k
 	for k := 1; k <= nIdx; k++ {
 		slot := uint256.NewInt(uint64(0x100 + k))
+		off, width := uint256.NewInt(0), uint256.NewInt(32)
+		if packed {
+			// keys ascend while slots descend, so that an order by slot differs from the order by key
+			slot = uint256.NewInt(uint64(0x100 + (nIdx-k)/4))
+			off, width = uint256.NewInt(uint64(8*((k-1)%4))), uint256.NewInt(8)
+		}
 		key := uint256.NewInt(uint64(k))
 		kb := key.Bytes32()
 		tx.Idx = append(tx.Idx, kb[:])
-		emitJ(a, gen.JStep{Op: asm.IVVVJNAL, Operands: []*uint256.Int{uint256.NewInt(0x40), slot, key, uint256.NewInt(0), u256(A), u256(B)}})
+		emitJ(a, gen.JStep{Op: asm.IVVVJNAL, Operands: []*uint256.Int{uint256.NewInt(0x40), slot, key, off, u256(A), u256(B)}})
 		a.Push(uint64(0x2000 + k)).PushU(slot).Op(asm.SSTORE)
-		emitJ(a, gen.ValueJournal(slot, uint256.NewInt(0), uint256.NewInt(32), A))
+		emitJ(a, gen.ValueJournal(slot, off, width, A))
 	}
 	// nested calls to a callee that journals its own variable under its own call index; plus calls to CWrite
 	for c := 0; c < nCalls; c++ {
@@ -309,7 +321,7 @@ type c16Replay struct {
 
 func c16MapOrderTxs(thorough bool) []c16Tx {
 	f := world.Shanghai
-	out := []c16Tx{c16Recorder(f, 3, 2, 1), c16Recorder(f, 6, 5, 2), c16Recorder(f, 2, 8, 3)}
+	out := []c16Tx{c16Recorder(f, 3, 2, 1), c16Recorder(f, 6, 5, 2), c16Recorder(f, 2, 8, 3), c16RecorderP(f, 2, 6, 1, true)}
 	if thorough {
 		out = append(out, c16Recorder(f, 8, 3, 4), c16Recorder(world.Byzantium, 4, 4, 2))
 	}
@@ -330,7 +342,7 @@ func init() {
 		ID:        "C16",
 		Level:     "model_checking",
 		Technique: "exhaustive enumeration of Go map-iteration start offsets (a seam put into the runtime by a build overlay; every `range` over a map executed by the code under test is a choice point, deviation-bounded) during execution and during every recorder query; exhaustive enumeration of transaction histories (all sequences up to length 3 over a transaction set touching every package-level value) and of two-EVM invocation interleavings; canonical serialisations with lists in returned order must be identical",
-		Rule: "(a) map order: recorder transactions creating 2-8 children / index keys / change indices per node; all executions with <= 1 non-zero iteration offset during the EVM execution and all with <= 2 during the queries (Children, ChildrenIndices, IndicesOfChanges, Changes, ChildrenOf, balances, call tree); serialisation identical across all offset vectors. (b) histories: T = 17 transactions (recorder, reference journals over empty/short/long strings, arithmetic over the shared constants, precompiles + CREATE + SELFDESTRUCT + LOG, extra-EIP and plain London tables, Cancun additions); every sequence over T of length <= L in one process, each element on a fresh EVM and equal pre-state: every transaction has exactly one serialisation across all contexts. (c) isolation: two live EVMs, 2 invocations each, all 6 interleavings: each EVM's views equal its solo views. non-trivial = distinct executions in which a map with >= 2 entries was iterated with a non-zero offset, or histories of length >= 2",
+		Rule: "(a) map order: recorder transactions creating 2-8 children / index keys / change indices per node (one with members packed four to a storage slot); all executions with <= 1 non-zero iteration offset during the EVM execution and all with <= 2 during the queries (Children, ChildrenIndices, IndicesOfChanges, Changes, ChildrenOf, balances, call tree); serialisation identical across all offset vectors. (b) histories: T = 17 transactions (recorder, reference journals over empty/short/long strings, arithmetic over the shared constants, precompiles + CREATE + SELFDESTRUCT + LOG, extra-EIP and plain London tables, Cancun additions); every sequence over T of length <= L in one process, each element on a fresh EVM and equal pre-state: every transaction has exactly one serialisation across all contexts. (c) isolation: two live EVMs, 2 invocations each, all 6 interleavings: each EVM's views equal its solo views. non-trivial = distinct executions in which a map with >= 2 entries was iterated with a non-zero offset, or histories of length >= 2",
 		Assumptions: []string{"maps with more than 8 entries (more than one bucket) are outside the enumerated offsets", "requires the vcheck-map binary (runtime overlay); without it only (b) and (c) run and the evidence says so"},
 		Bounds: func(t string) map[string]any {
 			return map[string]any{"exec_offset_deviation_bound": 1, "query_offset_deviation_bound": 2, "history_length": map[string]int{"quick": 3, "thorough": 4}[t], "transactions": len(c16Txs()), "map_hook": maphook.Enabled}
